@@ -181,18 +181,22 @@ def stream_file_name(stream, pre, plan_run, n=None):
 
 def check_plan(ctx, plan):
     rep = Report()
-    ops, marks = compile_plan(plan)
-    # the faulted file's path is only known from the getters: resolve the placeholder from the plan
+    # the fault is attached to a file by name: the faulted stream gets an explicit, unique file name for that run
     f = plan.get("fault")
     if f:
+        plan = json.loads(json.dumps(plan))
+        f = plan["fault"]
         run = plan["runs"][f["run"]]
         if f["stream"] == "Sel":
-            target = "selected_" if not any(s[3] for s in run["sel"]) else [s[3] for s in run["sel"] if s[3]][0]
+            if run["sel"]:
+                run["sel"][0][3] = "c09_faulted_sel_%d.txt" % f["run"]
+                target = run["sel"][0][3]
+            else:
+                plan["fault"] = f = None
         else:
-            key = f["stream"] + "FileName"
-            target = run["names"].get(key) or {"Output": ".out", "Log": ".log", "Error": ".err", "Dump": "dump."}[f["stream"]]
-            if f["stream"] == "Output" and key not in run["names"]:
-                target = "phreeqc."
+            run["names"][f["stream"] + "FileName"] = target = "c09_faulted_%s_%d.txt" % (f["stream"], f["run"])
+    ops, marks = compile_plan(plan)
+    if f:
         for o in ops:
             if o[0] == "fs_fault":
                 o[1] = target
